@@ -46,7 +46,8 @@ func TestVerifReplay(t *testing.T) {
 				}
 				want := len(buf)
 				if rem := size - int(off); rem < want { want = rem }
-				if err != nil && err != io.EOF { continue }
+				if err == io.EOF { t.Logf("REPLAY-CONFIRMED ReadAt(len %d, off %d) on a %d-byte file reported end-of-file before the end", len(buf), off, size); return }
+				if err != nil { continue }
 				if n != want || !bytes.Equal(buf[:n], content[off:int(off)+n]) {
 					t.Logf("REPLAY-CONFIRMED ReadAt(len %d, off %d) on a %d-byte file: n=%d (want %d) or wrong content", len(buf), off, size, n, want); return
 				}
